@@ -191,3 +191,27 @@ extern "C" void vp_tok_ign()
       vp_witness("end");
    }
 }
+
+/* TOK-STR: parse_string on a text that starts with a quote (C03: literals are complete and unaltered) */
+extern "C" void vp_tok_str()
+{
+   vp_tok_setup();
+   vp_assume(g_data[0] == '"' || g_data[0] == '\'');
+   /* premise of C03: no string-rewriting option is set */
+   vp::set(options::string_replace_tab_chars, false);
+   bool         allow_escape = vp_bool();
+   TokenContext ctx(g_data);
+   Chunk        pc;
+   bool         ok  = parse_string(ctx, pc, 0, allow_escape);
+   size_t       idx = ctx.c.idx;
+   vp_assert(ok && idx > 0, "C06:no progress on a string literal");
+   vp_assert(idx <= N, "C06:tokenizer position beyond the end of the input");
+   bool same = (pc.GetStr().size() == idx);
+   for (size_t i = 0; i < idx && i < N; i++) { if (pc.GetStr()[i] != g_data[i]) { same = false; } }
+   vp_assert(same, "C03:string literal chunk differs from the characters consumed");
+   size_t lf, crlf, cr;
+   size_t nb = ref_breaks(idx, &lf, &crlf, &cr);
+   vp_assert(pc.GetNlCount() == nb, "C08:line breaks inside a string literal miscounted (LF, CR LF, CR each count once)");
+   vp_assert(pc.GetType() == (nb ? CT_STRING_MULTI : CT_STRING), "C03:wrong chunk type for a string literal");
+   vp_witness("end");
+}
